@@ -52,7 +52,7 @@ def plan(tier, seed):
 
 def thresholds(tier):
   t = {"mutants_judged": 800, "legal_elaborations": 400, "kinds_with_5": len(KINDS) - 2, "elaborations": 3000, "holey_defects_judged": 80,
-       "holey_list_designs_with_leading_hole": 60, "lambda_variant_designs": 200, "lambda_variant_defects_judged": 60}
+       "holey_list_designs_with_leading_hole": 60, "lambda_variant_designs": 200, "lambda_variant_defects_judged": 60, "split_position_designs_judged": 500}
   if tier == "thorough":
     t.update({"mutants_judged": 15000, "legal_elaborations": 8000, "elaborations": 60000})
   return t
@@ -833,6 +833,68 @@ def run_ff_fullslice_case(sh, case):
     G.unload(mod)
 
 
+SPLITPOS_SRC = """
+from pymtl3 import *
+class SPChild(Component):
+  def construct(s, own_part, self_write):
+    s.in_ = InPort(8); s.out = OutPort(8); s.k = InPort(4)
+    if own_part == "slice":
+      @update
+      def up_lo(): s.out[0:4] @= s.k
+    elif own_part == "whole":
+      @update
+      def up_all(): s.out @= s.in_
+    if self_write:                      # forbidden: a component writes its own InPort
+      @update
+      def up_self(): s.in_[0:4] @= 5
+class SPTop(Component):
+  def construct(s, shape):
+    s.k = InPort(4); s.o = OutPort(8)
+    if shape == "parent-writes-other-half-of-child-outport":       # forbidden position for the parent's block
+      s.c = SPChild("slice", False); s.c.k //= s.k; s.c.in_ //= 0
+      @update
+      def up_hi(): s.c.out[4:8] @= s.k
+    elif shape == "child-writes-half-of-own-inport":               # forbidden position for the child's block
+      s.c = SPChild("whole", True); s.c.k //= s.k
+      @update
+      def up_p(): s.c.in_[4:8] @= s.k
+    elif shape == "control-parent-writes-halves-of-child-inport":
+      s.c = SPChild("whole", False); s.c.k //= s.k
+      @update
+      def up_a(): s.c.in_[4:8] @= s.k
+      @update
+      def up_b(): s.c.in_[0:4] @= s.k
+    else:                                                          # control: the child drives both halves of its own port
+      s.c = SPChild("slice", False); s.c.k //= s.k; s.c.in_ //= 0
+      s.d = SPChild("whole", False); s.d.k //= s.k; s.d.in_ //= s.c.out
+    s.o //= s.c.out
+"""
+
+
+def run_split_position_case(sh, case):
+  """two blocks of two DIFFERENT components write disjoint halves of one port, one from a legal hierarchical position, one from a
+  forbidden one (parent writing the child's OutPort, child writing its own InPort): refused, in whatever order blocks and
+  components are visited (several instances are built and kept alive: the visiting order follows their addresses)"""
+  rng = sh.rng("splitpos", case)
+  mod = G.load_source(SPLITPOS_SRC, "c09sp")
+  keep = []
+  try:
+    for shape in ("parent-writes-other-half-of-child-outport", "child-writes-half-of-own-inport", "control-parent-writes-halves-of-child-inport", "control-two-children"):
+      for rep in range(4):
+        keep.append([object() for _ in range(rng.randrange(1, 40))])     # moves the addresses
+        top = mod.SPTop(shape); keep.append(top)
+        try: top.elaborate(); oc = None
+        except Exception as e: oc = type(e).__name__
+        sh.count("elaborations"); sh.count("split_position_designs_judged")
+        if shape.startswith("control"):
+          if oc is not None: sh.violation("defect-free-design-rejected", {"outcome": oc, "shape": shape, "design_source": SPLITPOS_SRC}, case=("splitpos", case, shape)); return
+        elif oc is None:
+          sh.violation("defective-design-elaborated-without-error", {"defect": "a port written from a forbidden hierarchical position next to a legal write of its other half", "shape": shape,
+                       "expected": ["SignalTypeError"], "instance_no": rep, "design_source": SPLITPOS_SRC}, case=("splitpos", case, shape)); return
+  finally:
+    G.unload(mod)
+
+
 def run_shard(sh):
   if sh.idx == 0: run_looprange_probe(sh)
   for case in range(6 if sh.tier == "quick" else 60):
@@ -841,6 +903,7 @@ def run_shard(sh):
     run_loopback_case(sh, sh.idx * 1000 + case)
     run_constnet_overlap_case(sh, sh.idx * 1000 + case)
     run_ff_fullslice_case(sh, sh.idx * 1000 + case)
+    run_split_position_case(sh, sh.idx * 1000 + case)
   for case in range(12 if sh.tier == "quick" else 200):
     run_holey(sh, sh.idx * 1000 + case)
   for case in range(6 if sh.tier == "quick" else 60):
